@@ -13,7 +13,8 @@ out = ["# Seeded changes", "",
 "an error / slow path. Round 4 (`C??-r4-<name>`) named, per property, one clause of the statement that no earlier change",
 "was aimed at (`tools/seedprompts.py clause:a`); round 5 (`C??-r5-<name>`) did the same with a second set of clauses and a",
 "preference for sites two steps away (`clause:b`); round 6 (`C??-r6-<name>`) asked for changes presented as performance or",
-"resource optimisations (`optimise`: caches, pooled or reused buffers, narrowed critical sections, shared timers). A change that an agent of a later round made again is not stored twice;",
+"resource optimisations (`optimise`: caches, pooled or reused buffers, narrowed critical sections, shared timers); round 7",
+"(`C??-r7-<name>`) for clean-ups of error handling and resource management (`cleanup`). A change that an agent of a later round made again is not stored twice;",
 "`also_produced_for` in the meta.json of the stored one records it.", "",
 "Files: `patch.diff` (the change), `demo/` (the agent's demonstration test, to be copied over a worktree that has the",
 "patch applied), `meta.json` (summary, what the change needs to manifest, how it was verified, which check reports it).", "",
